@@ -4,6 +4,7 @@
    cfg  <last> <locals> <remotes>                 the walk alone (diffConfigEntries)
    racl <kind> <last> <remoteIndex> <locals> <remotes>   one real replicateACLType round
    rcfg <last> <remoteIndex> <locals> <remotes>          one real replicateConfig round
+   nbatch <rows id;name …> <upserts id;name …>           one upsert batch against the unique name index
 
    ACL item:    id;mod;hash;val;size      config item: kind;name;mod;hash;val
    A round answers  ret=<returned index> w=<Raft applies in order> final=<id;val …>  where an apply
@@ -24,6 +25,13 @@ def parseCfgItem (tok : String) : Option (Item CKey Nat) :=
   | [k, n, m, h, v] => do
       let kind ← decB k; let name ← decB n; let mod ← m.toNat?; let hash ← h.toNat?; let val ← v.toNat?
       pure ⟨(kind, name), mod, hash, val, 1⟩
+  | _ => none
+
+def parseNRow (tok : String) : Option NRow :=
+  match tok.splitOn ";" with
+  | [i, n] => do
+      let id ← decB i; let name ← decB n
+      pure ⟨id, name⟩
   | _ => none
 
 def encIds (l : List Bytes) : String := encList (l.map encB)
@@ -71,6 +79,13 @@ def step (_ : Unit) (toks : List String) : Unit × String :=
     match last.toNat?, ridx.toNat?, (decList ls).mapM parseCfgItem, (decList rs).mapM parseCfgItem with
     | some last, some ridx, some l, some r => ((), roundStr cfgRnd cfgId last ridx l r)
     | _, _, _, _ => ((), "bad-op")
+  | ["nbatch", rows, ups] =>
+    match (decList rows).mapM parseNRow, (decList ups).mapM parseNRow with
+    | some s, some xs =>
+      match nBatch s xs with
+      | some _ => ((), "applied")
+      | none => ((), "rejected")
+    | _, _ => ((), "bad-op")
   | _ => ((), "bad-op")
 
 def engine : Engine := { State := Unit, init := (), step := step }
